@@ -281,10 +281,12 @@ impl Runner {
             }
         }
         let flag = if self.e1_broken { "!E1" } else { "" };
+        // transactions also show the pre-order trace of every message handled (the failing one marked `!`)
+        let tr = if matches!(op, Op::Tx { .. }) { format!(" trace=[{}]", self.chain.trace.join(";")) } else { String::new() };
         if r.ok {
-            format!("ok{} | {}", flag, self.chain.observe())
+            format!("ok{} | {}{}", flag, self.chain.observe(), tr)
         } else {
-            format!("err{}:{} | {}", flag, r.err.replace('\n', " ").replace('|', "/"), self.chain.observe())
+            format!("err{}:{} | {}{}", flag, r.err.replace('\n', " ").replace('|', "/"), self.chain.observe(), tr)
         }
     }
 
